@@ -72,6 +72,18 @@ def build_tables(dp):
             for k, ri in enumerate(r3.sample(decoys, min(len(decoys), dp["top_decoys"]))):
                 for ci in fcols:
                     t["rows"][ri][ci] = float(f"{9.0 + k + r3.random():.6f}")
+        if dp.get("nan_key") and "ExpMass" in t["columns"]:
+            # spectra whose numeric key column (the measured mass) is missing: all their PSMs still form one spectrum
+            r4 = random.Random(f"nankey|{dp['data_seed']}|{f}")
+            cols = t["columns"]
+            sc, mc = cols.index("ScanNr"), cols.index("ExpMass")
+            keys = sorted({(row[sc], row[mc]) for row in t["rows"]})
+            chosen = set(r4.sample(keys, max(1, int(len(keys) * dp["nan_key"]))))
+            scans_hit = {k[0] for k in chosen}
+            for row in t["rows"]:
+                # (every mass variant of a chosen scan loses its mass, so that no two distinct spectra become one by accident)
+                if row[sc] in scans_hit:
+                    row[mc] = None
         if dp.get("int_feature"):
             # an integer-typed feature (whole numbers in text, int64 in Parquet) whose magnitudes exceed 2**24: distinct
             # values that single-precision arithmetic cannot tell apart
@@ -202,6 +214,11 @@ def run_pipeline(tables, cfg, workdir, name, fmt="pin", row_group=None, sched_de
                 prefixes = [None] if len(paths) == 1 else [f"f{i}" for i in range(len(paths))]
             conf_scores = scores if cfg.get("raw_conf_scores") else [np.asarray(s, dtype=float).reshape(-1) for s in scores]
             conf_descs = descs
+            if cfg.get("quantise_scores") is not None:
+                # limited-precision scores: exact ties at every level (tie-breaking must be reproducible too)
+                conf_scores = [np.round(np.asarray(s, dtype=float).reshape(-1), cfg["quantise_scores"]) for s in scores]
+            # rng left at assign_confidence's default in some scenarios (the default is a seed, too)
+            rng_kw = {} if cfg.get("conf_rng_default") else {"rng": cfg["seed"]}
             mokapot.assign_confidence(
                 psms=list(psms),
                 max_workers=cfg["max_workers"],
@@ -215,7 +232,7 @@ def run_pipeline(tables, cfg, workdir, name, fmt="pin", row_group=None, sched_de
                 deduplication=conf.get("dedup", True),
                 do_rollup=conf.get("rollup", True),
                 proteins=proteins,
-                rng=cfg["seed"],
+                **rng_kw,
             )
             if cfg.get("confidence_twice"):
                 # a second report from the very same objects (scores/descs as returned by brew) into another directory
@@ -226,7 +243,7 @@ def run_pipeline(tables, cfg, workdir, name, fmt="pin", row_group=None, sched_de
                     psms=list(psms), max_workers=cfg["max_workers"],
                     scores=conf_scores, descs=conf_descs, eval_fdr=cfg["test_fdr"], dest_dir=dest2, prefixes=prefixes,
                     decoys=conf.get("decoys", True), deduplication=conf.get("dedup", True), do_rollup=conf.get("rollup", True),
-                    proteins=proteins, rng=cfg["seed"],
+                    proteins=proteins, **rng_kw,
                 )
                 for f2 in sorted(os.listdir(dest2)):
                     if (dest2 / f2).is_file():
